@@ -8,6 +8,8 @@ root = sys.argv[1]
 verbose = "-v" in sys.argv
 tot_b = tot_a = 0
 for rel, sh in sorted(rw.shapes().items()):
+    if rel == '<global>':
+        continue
     p = os.path.join(root, rel)
     if not os.path.exists(p):
         continue
